@@ -203,6 +203,21 @@ def run(ctx):
     cases = gen_cases(E, ctx)
     ctx.log('%d build cases' % len(cases))
     E.run_builds(cases)
+    # scripts with reserve_table calls that go wrong: when the same script WITHOUT those calls (start counts raised instead) is fine, the call is at fault
+    sus = [c for c in cases if getattr(c.gen, 'has_reserve', False) and c.hrep != c.mrep]
+    if sus:
+        alt = lib.run_harness_resilient(E.H, [bu.plain_script(c.h) for c in sus])
+        from .builder_engine import mask_refs
+        for c, a in zip(sus, alt):
+            if c.gen.opaque: a = mask_refs(a, c.gen.opaque)
+            if a == c.mrep:
+                ctx.count(c.h, klass='build:' + c.klass)
+                ctx.violation('reserve-table-rewinds-patch-log',
+                              'flatcc_builder_reserve_table called on an open table changes what is built although it is documented to have "absolutely no effect on the table layout": '
+                              'the script %s; the same script without the reserve_table calls (start_table counts raised instead) builds what the model builds' % (
+                                  'fails / crashes (%s)' % c.hrep[:80] if c.himpl is None else 'finishes other bytes than the model'),
+                              {'harness_line': c.h, 'model_line': c.m, 'schema': c.schema.name, 'impl': c.hrep[:3000], 'model': c.mrep[:3000], 'without_reserve_line': bu.plain_script(c.h)[:6000]})
+                cases.remove(c)
     compare_builds(E, ctx, cases)
     E.embed_no_parent(rng, 12 if not ctx.thorough else 120)        # embed_buffer with no buffer open: plain emission, no size field header
     # tables within a few bytes of / exactly at / one field beyond / far beyond the 64 KB a vtable can describe: fit -> built and decoded, else refused
